@@ -950,6 +950,63 @@ impl<'c, 'a> VisitMut for Structural<'c, 'a> {
     fn visit_expr_mut(&mut self, e: &mut Expr) {
         // children first
         visit_mut::visit_expr_mut(self, e);
+        // R15c: `mut x` bindings in match-arm patterns -> plain binding + shadowing `let mut x = x;` at the start of the arm
+        if let Expr::Match(m) = e {
+            for arm in m.arms.iter_mut() {
+                let mut mb = MutBindings { names: vec![] };
+                mb.visit_pat_mut(&mut arm.pat);
+                if !mb.names.is_empty() {
+                    let body = &arm.body;
+                    let lets: Vec<Stmt> = mb.names.iter().map(|n| { let s: Stmt = syn::parse_quote!(let mut #n = #n;); s }).collect();
+                    arm.body = Box::new(syn::parse_quote!({ #(#lets)* #body }));
+                    self.cx.logr("R15", m.match_token.span, format!("`mut` binding(s) {} in a match pattern -> shadowing let in the arm", mb.names.iter().map(|n| n.to_string()).collect::<Vec<_>>().join(", ")));
+                }
+            }
+        }
+        // R5b: reference patterns nested in match / if-let patterns (`Some(&X { a, .. })` against an `Option<&X>`): the `&` is dropped
+        // (default binding modes then bind `a` by reference) and each binding below it is dereferenced at the start of the arm
+        if let Expr::Match(m) = e {
+            for arm in m.arms.iter_mut() {
+                let mut rp = RefPats { names: vec![], inside: 0 };
+                rp.visit_pat_mut(&mut arm.pat);
+                if !rp.names.is_empty() {
+                    let names = &rp.names;
+                    if let Some((_, g)) = &arm.guard {
+                        let g = g.clone();
+                        arm.guard.as_mut().unwrap().1 = Box::new(syn::parse_quote!({ #(let #names = *#names;)* #g }));
+                    }
+                    let body = &arm.body;
+                    arm.body = Box::new(syn::parse_quote!({ #(let #names = *#names;)* #body }));
+                    self.cx.logr("R5", m.match_token.span, format!("reference pattern in a match arm dropped; binding(s) {} dereferenced in the arm", names.iter().map(|n| n.to_string()).collect::<Vec<_>>().join(", ")));
+                }
+            }
+        }
+        if let Expr::If(i) = e {
+            if let Expr::Let(l) = &mut *i.cond {
+                let mut rp = RefPats { names: vec![], inside: 0 };
+                rp.visit_pat_mut(&mut l.pat);
+                if !rp.names.is_empty() {
+                    let names = &rp.names;
+                    let stmts = &i.then_branch.stmts;
+                    i.then_branch = syn::parse_quote!({ #(let #names = *#names;)* #(#stmts)* });
+                    self.cx.logr("R5", i.if_token.span, format!("reference pattern in an if-let dropped; binding(s) {} dereferenced in the block", names.iter().map(|n| n.to_string()).collect::<Vec<_>>().join(", ")));
+                }
+            }
+        }
+        // R31: a labelled loop whose `continue 'l` / `break 'l` all sit directly in it (not inside a nested loop): the label is dropped
+        if let Expr::Loop(l) = e {
+            if let Some(lab) = l.label.clone() {
+                let name = lab.name.ident.to_string();
+                let mut lu = LabelUse { name: name.clone(), depth: 0, nested: false, count: 0 };
+                lu.visit_block_mut(&mut l.body);
+                if !lu.nested {
+                    l.label = None;
+                    let mut ls = LabelStrip { name };
+                    ls.visit_block_mut(&mut l.body);
+                    self.cx.logr("R31", l.loop_token.span, format!("label '{} of a loop dropped ({} uses, none inside a nested loop)", lab.name.ident, lu.count));
+                }
+            }
+        }
         let replacement: Option<Expr> = match e {
             Expr::Macro(em) => {
                 if macro_name(&em.mac).starts_with("__vp_") {
@@ -1065,11 +1122,113 @@ impl<'c, 'a> VisitMut for Structural<'c, 'a> {
     }
 }
 
+struct RefPats { names: Vec<syn::Ident>, inside: usize }
+impl VisitMut for RefPats {
+    fn visit_pat_mut(&mut self, p: &mut syn::Pat) {
+        if let syn::Pat::Reference(r) = p {
+            if r.mutability.is_none() {
+                let inner = (*r.pat).clone();
+                *p = inner;
+                self.inside += 1;
+                self.visit_pat_mut(p);
+                self.inside -= 1;
+                return;
+            }
+        }
+        if self.inside > 0 {
+            if let syn::Pat::Ident(pi) = p {
+                if pi.by_ref.is_none() && pi.subpat.is_none() && !self.names.contains(&pi.ident) {
+                    // an identifier pattern that starts with an upper-case letter is a constant/unit variant, not a binding
+                    if pi.ident.to_string().chars().next().map(|c| c.is_lowercase() || c == '_').unwrap_or(false) {
+                        self.names.push(pi.ident.clone());
+                    }
+                }
+            }
+        }
+        visit_mut::visit_pat_mut(self, p);
+    }
+}
+struct MutBindings { names: Vec<syn::Ident> }
+impl VisitMut for MutBindings {
+    fn visit_pat_ident_mut(&mut self, p: &mut syn::PatIdent) {
+        if p.mutability.is_some() && p.by_ref.is_none() {
+            p.mutability = None;
+            self.names.push(p.ident.clone());
+        }
+        visit_mut::visit_pat_ident_mut(self, p);
+    }
+    fn visit_field_pat_mut(&mut self, fp: &mut syn::FieldPat) {
+        // `Struct { mut def, .. }` is shorthand for `def: mut def`: spell the field out when the `mut` goes away
+        visit_mut::visit_field_pat_mut(self, fp);
+        if fp.colon_token.is_none() {
+            if let syn::Pat::Ident(pi) = &*fp.pat {
+                if self.names.contains(&pi.ident) {
+                    fp.colon_token = None;
+                }
+            }
+        }
+    }
+}
+struct LabelUse { name: String, depth: usize, nested: bool, count: usize }
+impl VisitMut for LabelUse {
+    fn visit_expr_mut(&mut self, e: &mut Expr) {
+        match e {
+            Expr::Loop(_) | Expr::While(_) | Expr::ForLoop(_) => {
+                self.depth += 1;
+                visit_mut::visit_expr_mut(self, e);
+                self.depth -= 1;
+                return;
+            }
+            Expr::Closure(_) => return,
+            Expr::Continue(c) => {
+                if c.label.as_ref().map(|l| l.ident == self.name).unwrap_or(false) { self.count += 1; if self.depth > 0 { self.nested = true; } }
+            }
+            Expr::Break(b) => {
+                if b.label.as_ref().map(|l| l.ident == self.name).unwrap_or(false) { self.count += 1; if self.depth > 0 { self.nested = true; } }
+            }
+            _ => {}
+        }
+        visit_mut::visit_expr_mut(self, e);
+    }
+}
+struct LabelStrip { name: String }
+impl VisitMut for LabelStrip {
+    fn visit_expr_mut(&mut self, e: &mut Expr) {
+        match e {
+            Expr::Continue(c) => { if c.label.as_ref().map(|l| l.ident == self.name).unwrap_or(false) { c.label = None; } }
+            Expr::Break(b) => { if b.label.as_ref().map(|l| l.ident == self.name).unwrap_or(false) { b.label = None; } }
+            _ => {}
+        }
+        visit_mut::visit_expr_mut(self, e);
+    }
+}
+
 impl<'c, 'a> Structural<'c, 'a> {
     fn rewrite_for(&mut self, f: &syn::ExprForLoop) -> Option<Expr> {
         // R6: for (i, p) in S.iter().enumerate()
         let it = &*f.expr;
         let label = &f.label;
+        // R6d: `for p in [a, b, ..]` (array literal by value) -> index loop over a local copy of the array
+        if let Expr::Array(arr) = it {
+            if let syn::Pat::Ident(_) = &*f.pat {
+                let n = arr.elems.len();
+                let mut body = f.body.clone();
+                let marker = if !body.stmts.is_empty() && norm(body.stmts[0].to_token_stream()).starts_with("__vp_loop") {
+                    Some(body.stmts.remove(0))
+                } else {
+                    None
+                };
+                if !norm(body.to_token_stream()).contains("continue") {
+                    let p = &f.pat;
+                    let stmts = &body.stmts;
+                    self.cx.logr("R6", f.for_token.span, format!("for x in [..{} elements..] -> index loop over a local array", n));
+                    return Some(syn::parse_quote!({
+                        let __vp_arr = #arr;
+                        #label for __vp_k in 0..#n { #marker let #p = __vp_arr[__vp_k]; #(#stmts)* }
+                    }));
+                }
+            }
+        }
         // R6c: `for p in &S` / `for p in S.iter()` / `for p in S` (S a slice or Vec place) -> index loop
         {
             let src: Option<Expr> = match it {
@@ -1527,7 +1686,7 @@ pub fn extract_fn(file: &syn::File, name: &str, opts: &Value, rules: &[Rule], pl
     let mut all_rules: Vec<Rule> = vec![];
     if let Some(ss) = opts["substs"].as_array() {
         for (k, s) in ss.iter().enumerate() {
-            let line = format!("S{}: {} => {}", k, s[0].as_str().unwrap_or(""), s[1].as_str().unwrap_or(""));
+            let line = format!("S{}: {} ===> {}", k, s[0].as_str().unwrap_or(""), s[1].as_str().unwrap_or(""));
             all_rules.extend(matcher::parse_rules(&line)?);
         }
     }
